@@ -33,7 +33,7 @@ PROP = dict(
                            "state:view-base-created": 300, "universe:long-element": 500, "universe:empty-element": 200,
                            "monitor:value-compares": 500000, "monitor:absence-compares": 500000,
                            "monitor:existence-compares": 1000000, "monitor:view-compares": 100000, "mpt_config_get": 100000}),
-              dict(name="c10_cxx", src=["c10_cxx.cpp"], libs=["mpt++", "mptio", "mptplot", "mptcore"], batch=64, lsan=True,
+              dict(name="c10_cxx", memcheck=800, src=["c10_cxx.cpp"], libs=["mpt++", "mptio", "mptplot", "mptcore"], batch=64, lsan=True,
                    floors={"config::set:assign": 100000, "config::root::assign": 50000, "config::set:remove": 50000,
                            "config::del": 30000, "config::root::remove": 30000, "config::root::remove:clear": 5000,
                            "state:overwrite": 30000, "state:remove-inner-node": 5000, "state:long-value": 5000,
